@@ -587,3 +587,31 @@ package migrate
 //@   requires s != nil
 //@   modifies *s, heap(E_string), heap(E_Pmigrate_Stmt)
 //@   loop 1 invariant gvcCursorOK(s) && s.pos == 0
+
+// ---------------------------------------------------------------------------------------
+// C20 (narrow): directory listings are determined by the directory's contents, not by map
+// iteration order or by the order the file system reports names: the result is sorted by name
+// and holds exactly the .sql files of the directory.  (Names are unique — map keys, file
+// names — so a sorted list of them is unique.)
+
+//@ import "path/filepath"
+//@ extern func filepath.Ext(path string) (ext string)
+//@   pure
+//@ spec func gvcInDir(d *MemDir, k string) bool { _, ok := d.fs[k]; return ok }
+
+//@ func (d *MemDir) Files() (files []File, err error)
+//@   requires d != nil
+//@   requires (forall k string :: gvcInDir(d, k) ==> d.fs[k] != nil)
+//@   modifies nothing
+//@   ensures never-fails: err == nil
+//@   ensures sorted-by-name: (forall i int, j int :: 0 <= i && i < j && j < len(files) ==> !(files[j].Name() < files[i].Name()))
+//@   ensures only-sql-files-of-the-directory: (forall i int :: 0 <= i && i < len(files) ==>
+//@           (exists k string :: gvcInDir(d, k) && files[i] == File(d.fs[k]) && filepath.Ext(d.fs[k].Name()) == ".sql"))
+//@   ensures every-sql-file-listed: (forall k string :: gvcInDir(d, k) && filepath.Ext(d.fs[k].Name()) == ".sql" ==>
+//@           (exists i int :: 0 <= i && i < len(files) && files[i] == File(d.fs[k])))
+//@   loop 1 localwrites
+//@   loop 1 invariant files != nil && GvcFresh(files)
+//@   loop 1 invariant (forall i int :: 0 <= i && i < len(files) ==>
+//@           (exists k string :: GvcAget(loopseen, k) && gvcInDir(d, k) && files[i] == File(d.fs[k]) && filepath.Ext(d.fs[k].Name()) == ".sql"))
+//@   loop 1 invariant (forall k string :: GvcAget(loopseen, k) && gvcInDir(d, k) && filepath.Ext(d.fs[k].Name()) == ".sql" ==>
+//@           (exists i int :: 0 <= i && i < len(files) && files[i] == File(d.fs[k])))
